@@ -78,6 +78,21 @@ def make_config(rng):
         met["ustar"] = series(0.2, 0.6)
     if fk in ("z0", "both"):
         met["z0"] = float(rng.uniform(0.01, 0.2))
+    # keep the configuration valid: the roughness length derived from ustar must stay below every tower's height
+    if "ustar" in met and "z0" not in met:
+        import math as _m
+        from vlib import gen as _g
+
+        def at(v, i):
+            return v[i] if isinstance(v, list) else v
+
+        for i in range(ns):
+            for tw_ in towers:
+                z0d = tw_["z_m"] * _m.exp(-0.4 * at(met["wind_speed"], i) / at(met["ustar"], i) + float(_g.psi_m(tw_["z_m"] / at(met["mol"], i))))
+                if not z0d < 0.3 * tw_["z_m"]:
+                    met["mol"] = -150.0 if not isinstance(met["mol"], list) else [-150.0 - 5 * k for k in range(ns)]
+                    met["wind_speed"] = [max(w, 3.0) for w in met["wind_speed"]] if isinstance(met["wind_speed"], list) else max(met["wind_speed"], 3.0)
+                    met["ustar"] = [min(u_, 0.3) for u_ in met["ustar"]] if isinstance(met["ustar"], list) else min(met["ustar"], 0.3)
     if rng.random() < 0.5:
         n_eff = max([len(v) for v in met.values() if isinstance(v, list)] or [1])
         met["timestamps"] = [f"2024-06-{d + 1:02d}T12:00" for d in range(n_eff)]
